@@ -189,3 +189,61 @@ def replay_points(sp):
     r = SP.run(dict(tier="quick", seed=0))
     f = [x for x in r["failures"] if "EVAL" in x["observed"] or "POINT-SOURCE" in x["observed"] or "QUAD" in x["observed"]]
     return dict(confirmed=bool(f) if f else None, observed=[x["observed"] for x in f][:3], input=[x["input"] for x in f][:2])
+
+
+def solver_reuse_failures():
+    """one solver object on two systems (different sizes, per-call options) vs fresh solver objects."""
+    import skfem as fem
+    from skfem import utils as U
+    out = []
+
+    def system(n):
+        m = fem.MeshTri().refined(n)
+        b = fem.Basis(m, fem.ElementTriP1())
+        A = fem.BilinearForm(lambda u, v, w: u.grad[0] * v.grad[0] + u.grad[1] * v.grad[1] + u * v).assemble(b)
+        f = fem.LinearForm(lambda v, w: 1. * v).assemble(b)
+        return A, f
+    (A1, f1), (A2, f2) = system(1), system(2)
+    for name, mk, opt in (("solver_iter_pcg", U.solver_iter_pcg, dict(rtol=1e-2)), ("solver_iter_krylov", U.solver_iter_krylov, dict(rtol=1e-2)),
+                          ("solver_direct_scipy", U.solver_direct_scipy, dict(use_umfpack=False)), ("solver_iter_cg", U.solver_iter_cg, dict(tol=1e-1))):
+        s = mk()
+        try:
+            s(A1, f1)
+            x2 = s(A2, f2)
+            if not np.allclose(x2, mk()(A2, f2), rtol=1e-9, atol=1e-12):
+                out.append("%s: second system solved with a reused solver differs from a fresh solver" % name)
+            s2 = mk()
+            s2(A1, f1, **opt)
+            if not np.allclose(s2(A1, f1), mk()(A1, f1), rtol=1e-9, atol=1e-12):
+                out.append("%s: options of an earlier call leak into later calls" % name)
+        except Exception as e:
+            out.append("%s: reuse raised %s: %s" % (name, type(e).__name__, str(e)[:100]))
+    M1 = fem.BilinearForm(lambda u, v, w: u * v).assemble(fem.Basis(fem.MeshTri().refined(1), fem.ElementTriP1()))
+    for name, mk in (("solver_eigen_scipy_sym", U.solver_eigen_scipy_sym),):
+        s = mk(k=2)
+        try:
+            s(A1, M1, k=3)
+            L = s(A1, M1)[0]
+            if len(L) != 2:
+                out.append("%s: per-call k=3 leaked into the next call (%d eigenvalues instead of 2)" % (name, len(L)))
+        except Exception as e:
+            out.append("%s: reuse raised %s: %s" % (name, type(e).__name__, str(e)[:100]))
+    return out
+
+
+def replay_solver_reuse(sp):
+    f = solver_reuse_failures()
+    return dict(confirmed=bool(f), observed=f[:3], input="one solver object used on two systems / with per-call options")
+
+
+def replay_table_alias(sp):
+    import skfem as fem
+    bad = []
+    for name, e, d in (("ElementLinePp(3)", fem.ElementLinePp(3), 1), ("ElementQuadP(3)", fem.ElementQuadP(3), 2)):
+        X1, X2 = np.random.RandomState(0).rand(d, 4), np.random.RandomState(1).rand(d, 4)
+        r1 = e.lbasis(X1, 2)
+        keep = [np.array(a, copy=True) for a in r1]
+        e.lbasis(X2, 2)
+        if any(not np.array_equal(a, b) for a, b in zip(r1, keep)):
+            bad.append("%s: arrays returned by lbasis(X1, .) changed after lbasis(X2, .)" % name)
+    return dict(confirmed=bool(bad), observed=bad, input="hold the result of lbasis at one point set, evaluate at another set of equal size")
